@@ -23,7 +23,8 @@ def label_text(lab, sep):
     0: the even labels contain every separator except the one in use;
     1: label 2 is spelt like a two-level flat key of *another* separator ("L1.L1" under "/"), so the
        same key text is met under different separators within one process;
-    2: text that is not in Unicode normal form (a combining accent, the Angstrom sign)"""
+    2: text that is not in Unicode normal form (a combining accent, the Angstrom sign);
+    3: keys spelt like the placeholder: the one-character ellipsis, three dots"""
     if lab == 0:
         return ""
     if STYLE[0] == 1:
@@ -31,6 +32,9 @@ def label_text(lab, sep):
         return "L1" if lab == 1 else "L1%sL1" % other
     if STYLE[0] == 2:
         return "cafe\u0301%d" % lab if lab == 1 else "\u212b%d" % lab
+    if STYLE[0] == 3:
+        # text that looks like the `...` placeholder without being it
+        return "\u2026" if lab == 1 else ("..." if "." not in sep else "\u2026\u2026")
     others = "".join("<%s>" % s for s in SEPARATORS if s != sep and sep not in s and s not in sep)
     return "L%d%s" % (lab, others if lab % 2 == 0 else "")
 
@@ -162,7 +166,7 @@ def main(chk):
                 continue
             seps = [SEPARATORS[0]] + chk.rng.sample(SEPARATORS[1:], nseps - 1)
             for sep in seps:
-                STYLE[0] = (len(events) // 2) % 3
+                STYLE[0] = (len(events) // 2) % 4
                 ev = run_case(st["tree"], bool(st["relaxed"]), st["order"], sep, labels, chk.rng)
                 ev.update({"id": len(events) + 1, "tree": st["tree"], "order": st["order"], "sep": sep})
                 events.append(ev)
